@@ -771,7 +771,7 @@ func scanInputs(r *hx.Rand, tier string) []SInput {
 		var ps []Probe
 		for j := 0; j < total; j++ {
 			sidx := r.Intn(ns)
-			dst := r.Intn(1 + i%len(sensorIPs))
+			dst := r.Intn(1 + i%len(allSensorIPs))
 			if protoOf[sidx] == "udp" {
 				p := udp(sidx, udpPorts[r.Intn(len(udpPorts))])
 				p.Dst = dst
@@ -803,10 +803,10 @@ func scanInputs(r *hx.Rand, tier string) []SInput {
 		var ps []Probe
 		sport := 0
 		nd := r.PickInt([]int{1, 2, 2, 3, 3}) // sensor addresses probed in this window
-		d0 := r.Intn(len(sensorIPs))
+		d0 := r.Intn(len(allSensorIPs))
 		for j := 0; j < total; j++ {
 			p := genProbe(r, r.Intn(ns), &sport)
-			p.Dst = (d0 + r.Intn(nd)) % len(sensorIPs)
+			p.Dst = (d0 + r.Intn(nd)) % len(allSensorIPs)
 			ps = append(ps, p)
 		}
 		ins = append(ins, SInput{Probes: ps, Ticks: T})
@@ -875,6 +875,8 @@ func main() {
 		if probe.Queue {
 			var in QInput
 			hx.LoadReplay(o.Only, &in)
+			oneDestination(in.Gate)
+			oneDestination(in.Burst)
 			ob, crash := runQueueRetry(in)
 			hx.Write(o, "C20", "queue", queueHeader, "qcase", []hx.Case{{ID: 0, Kind: "queue", Input: in, Obs: ob, Crash: crash, Coq: queueCoq(0, in, ob)}}, map[string]int{"replay": 1}, nil, 8)
 		} else if len(probe.Frames) > 0 {
@@ -895,6 +897,7 @@ func main() {
 			if in.Ticks == 0 {
 				in.Ticks = 3
 			}
+			oneDestination(in.Probes)
 			ob, crash := runScanRetry(in)
 			kind := "scan"
 			if in.Live {
@@ -906,7 +909,13 @@ func main() {
 	}
 
 	// ---- scan part: one batch of parallel scenarios per 300 inputs (started first: it waits)
+	skippedMulti := 0
 	sins := scanInputs(r, o.Tier)
+	for i := range sins {
+		if oneDestination(sins[i].Probes) {
+			skippedMulti++
+		}
+	}
 	sobs := make([]SObs, len(sins))
 	scr := make([]string, len(sins))
 	fins := frameInputs(r, o.Tier)
@@ -926,6 +935,13 @@ func main() {
 		close(frameDone)
 	}()
 	qins := queueInputs(r, o.Tier)
+	skippedMultiQ := 0
+	for i := range qins {
+		a, b := oneDestination(qins[i].Gate), oneDestination(qins[i].Burst)
+		if a || b {
+			skippedMultiQ++
+		}
+	}
 	qobs := make([]QObs, len(qins))
 	qcr := make([]string, len(qins))
 	queueDone := make(chan struct{})
@@ -993,7 +1009,12 @@ func main() {
 		}
 		scases = append(scases, hx.Case{ID: i, Kind: kind, Input: in, Obs: sobs[i], Crash: scr[i], Coq: scanCoq(i, in, sobs[i])})
 	}
-	hx.Write(o, "C20", "scan", scanHeader, "scase", scases, sdist, nil, (len(scases)+3)/4)
+	extra := map[string]interface{}{"sensor": netnsNote, "sensor-addresses": fmt.Sprint(meIPs)}
+	if len(sensorIPs) == 1 {
+		sdist["multi-address-scenarios-skipped"] = skippedMulti
+		sdist[netnsNote] = 1
+	}
+	hx.Write(o, "C20", "scan", scanHeader, "scase", scases, sdist, extra, (len(scases)+3)/4)
 
 	<-frameDone
 	fdist := map[string]int{}
@@ -1007,7 +1028,11 @@ func main() {
 		fdist["events:"+in.Class] += n
 		fcases = append(fcases, hx.Case{ID: i, Kind: "frames", Input: in, Obs: fobs[i], Crash: fcr[i], Coq: frameCoq(i, in, fobs[i])})
 	}
-	hx.Write(o, "C20", "frame", frameHeader, "fcase", fcases, fdist, nil, 2)
+	if len(sensorIPs) == 1 {
+		fdist["multi-address-scenarios-skipped"] = 1 // the block "one source against every sensor address"
+		fdist[netnsNote] = 1
+	}
+	hx.Write(o, "C20", "frame", frameHeader, "fcase", fcases, fdist, extra, 2)
 
 	<-queueDone
 	qdist := map[string]int{}
@@ -1017,7 +1042,11 @@ func main() {
 		qdist["senders-blocked-on-full-queue"] += qobs[i].Blocked
 		qcases = append(qcases, hx.Case{ID: i, Kind: "queue", Input: in, Obs: qobs[i], Crash: qcr[i], Coq: queueCoq(i, in, qobs[i])})
 	}
-	hx.Write(o, "C20", "queue", queueHeader, "qcase", qcases, qdist, nil, (len(qcases)+2)/3)
+	if len(sensorIPs) == 1 {
+		qdist["multi-address-scenarios-skipped"] = skippedMultiQ
+		qdist[netnsNote] = 1
+	}
+	hx.Write(o, "C20", "queue", queueHeader, "qcase", qcases, qdist, extra, (len(qcases)+2)/3)
 }
 
 const usetHeader = "From HT Require Import Common.Bytes C20.Model C20.Check.\nImport C20.Check.U."
